@@ -85,6 +85,14 @@ def avl_history(rng, cid, bits=None, lay=None, cap=None, length=None, grow=False
             ops.append('fill %d' % fresh_key(lay, uni))
     if fills:
         ops.append('fill %d' % fresh_key(lay, uni))
+    # a fill probe inserts an ascending run of fresh keys: the run must not reach a key of the universe
+    # (one-byte keys leave little room); otherwise the probes are dropped from this case
+    if any(o.startswith('fill') for o in ops):
+        fk = fresh_key(lay, uni)
+        need = nrec + 4
+        lo, hi = key_range(lay)
+        if fk + need > hi or any(fk <= k <= fk + need for k in uni):
+            ops = [o for o in ops if not o.startswith('fill')]
     hdr = {'bits': bits, 'lay': lay, 'cap': cap, 'nrec': cap, 'mode': mode}
     return Case(cid, 'avl', hdr, ops, {'stream': 'H'})
 
@@ -469,7 +477,7 @@ def avl_cap255_case(rng, cid, lay=None, mode='persistent', rounds=4, last_first=
 
 # ------------------------------------------------------------------ hash set
 def hash_history(rng, cid, vty=None, cap=None, length=None, mode='persistent', fills=True):
-    vty = vty or rng.choice(['weak1', 'weak2', 'weak3', 'u64', 'u64', 'u32', 'u8'])
+    vty = vty or rng.choice(['weak1', 'weak2', 'weak3', 'u64', 'u64', 'u32', 'u8', 'u128'])
     if cap is None:
         cap = rng.choice([1, 1, 2, 2, 3, 3, 4, 5, 6, 8, 11, 16])
     if vty == 'u8':
@@ -525,6 +533,25 @@ def hash_pair_history(rng, cid, mode='persistent'):
             ops.append(rng.choice(['size', 'iter', 'full']))
     return Case(cid, 'hash', {'vty': 'hpair', 'cap': cap, 'nrec': cap, 'mode': mode}, ops, {'stream': 'P', 'impl_only': True})
 
+def hash_q16_history(rng, cid, mode='persistent'):
+    """16-byte values of alignment 4 (24-byte records), odd and even capacities; implementation only"""
+    cap = rng.choice([1, 3, 3, 5, 7, 4, 9])
+    keys = [rng.randint(1, 60) + (rng.choice([0, 1, 7]) << 64) for _ in range(cap + 2)]
+    ops = []
+    for _ in range(rng.randint(8, 30)):
+        k = rng.choice(keys)
+        x = rng.random()
+        if x < 0.5:
+            ops.append('ins %d' % k)
+        elif x < 0.7:
+            ops.append('rem %d' % k)
+        elif x < 0.85:
+            ops.append('has %d' % k)
+        else:
+            ops.append(rng.choice(['size', 'iter', 'full', 'reopen', 'iter']))
+    ops += ['iter', 'size']
+    return Case(cid, 'hash', {'vty': 'q16', 'cap': cap, 'nrec': cap, 'mode': mode}, ops, {'stream': 'P', 'impl_only': True})
+
 M64 = (1 << 64) - 1
 def _rotl(x, b):
     return ((x << b) | (x >> (64 - b))) & M64
@@ -559,7 +586,7 @@ def hash_bucket(vty, v, cap):
     if vty.startswith('weak'):
         h = siphash13(le(v % int(vty[4:]), 8))
     else:
-        w = {'u64': 8, 'u32': 4, 'u8': 1}[vty]
+        w = {'u64': 8, 'u32': 4, 'u8': 1, 'u128': 16}[vty]
         h = siphash13(le(v, w))
     return (h & 0xffffffff) % cap
 
@@ -567,7 +594,7 @@ def hash_state_bytes(rng, vty, cap, values, extra_free):
     """bytes of a hash-set state satisfying the invariant: the given members chained in random
     order per bucket, random slot assignment, `extra_free` recycled slots in random order, the rest
     of the slots never used"""
-    vsz = 8 if vty.startswith('weak') else {'u64': 8, 'u32': 4, 'u8': 1}[vty]
+    vsz = 8 if vty.startswith('weak') else {'u64': 8, 'u32': 4, 'u8': 1, 'u128': 16}[vty]
     n = len(values)
     used = n + extra_free
     assert used <= cap
@@ -960,7 +987,7 @@ def pstr_maxlen_cases(prefix_id):
         for tail in (b'\xc3', b'\xc3\xa9', b'\xe2\x82', b'\xe2\x82\xac', b'a', b'\xff'):
             body = b'a' * (mx - len(tail)) + tail
             buf = le(mx, p) + body + b'zz'
-            ops = ['setbuf %s' % buf.hex(), 'ro', 'new', 'asstr']
+            ops = ['setbuf %s' % buf.hex(), 'ro', 'new', 'asstr', 'upper', 'asstr', 'rw', 'upper', 'asstr']
             out.append(Case('%s%d' % (prefix_id, cid), 'pstr', {'p': p, 'size': len(buf)}, ops, {'stream': 'B'})); cid += 1
     return out
 
@@ -1153,5 +1180,7 @@ def pod_cases(rng, prefix_id):
             ops.append('opt %d %s' % (sz, hx(pt)))
             ops.append('opt %d %s' % (sz, hx(pt + b'\x77\x00')))
         ops.append('opt %d %s' % (sz, hx(bytes(sz - 1))))
+    # an inner type of size zero: the option occupies no bytes, any buffer (also an empty one) loads
+    ops += ['opt 0 -', 'opt 0 00', 'opt 0 ff07']
     out.append(Case(prefix_id + 'opt', 'pod', {}, ops, {'stream': 'B'}))
     return out
